@@ -159,6 +159,12 @@ class Check:
                         bad = [e for t in part for e in t if _finite(e) != e][:1]
                         self.notes.append('non-finite dates in recorded traces are passed to TLC as strings, e.g. %r' % bad)
             r = tlc.run_tlc(obs_module, cfg, env={'TRACE_FILE': path}, timeout=timeout, workers=4, heap='4g')
+            if not r.errors:
+                # the verdict lines of several TLC workers can interleave on stdout: if the number of states does not
+                # add up with the verdicts that could be parsed, the chunk is validated again by a single worker
+                vs, _ = _parse_v(r.out)
+                if r.distinct + sum(len(part[tid - 1]) - pos for tid, _, pos in vs if 0 < tid <= len(part)) != sum(len(t) + 1 for t in part):
+                    r = tlc.run_tlc(obs_module, cfg, env={'TRACE_FILE': path}, timeout=timeout, workers=1, heap='4g')
             if r.errors and os.environ.get('VERIF_KEEP'):
                 shutil.copy(path, os.environ['VERIF_KEEP'])
             os.unlink(path)
